@@ -90,6 +90,12 @@ CHECKS["C06"] = dict(
     note="Quick tier samples 250 of the channel layouts (thorough: all). MieLens handles homogeneous spheres only, so layered members are replayed with Mie.",
     ref="5 C06")
 
+CHECKS["C08"] = dict(
+    technique="TLA+ spec LensRoutes.tla (physical classes x routes that must agree) model-checked by TLC; all routes executed on sampled classes and the recorded defects validated by LensRoutesTrace.tla",
+    text="TLC enumerates 6000 physical classes (4 relative indices 1.05-2.5, 5 size parameters 0.1-50, k z in {-150,-20,5,60,300}, 4 lens angles 0.1-1.4, 5 polarisation indices of Z_24, radial range inside / up to / beyond the large-rho cutoff) x 14 routes. For each sampled class the harness computes: MieLens with interpolation check/on/off, other window size and degree, AberratedMieLens with scalar 0 and zero lists of length 1-4, the default against a refined radial quadrature, and Lens(Mie) on a three-rung quadrature ladder with unequal theta/phi orders sized from the pupil phase variation; a TLC trace spec asserts agreement of all analytic routes, that the ladder is Cauchy and that its last rung equals the refined analytic theory (measured <= 2e-7 everywhere).",
+    note="numexpr is absent: the acceleration clause is not exercised (listed in evidence.not_covered). Quick tier: 20 classes covering every factor value; thorough: 400. Open finding: default MieLens quadrature unconverged at large k*rho*sin(angle).",
+    ref="5 C08")
+
 NOT_APPLICABLE = []
 
 
